@@ -61,6 +61,11 @@ beh("f05_nid_prefix", ["C05"], [A("k1", "e1", "n1"), A("k2", "e1", "n2"), NID("k
                                 G("k1", "k2", "N1", hasState=True, ssig="k2")], nidl=True, so=True)
 beh("f10_inner_window", ["C10", "C03"], [A("k1", "e1", "n1", "s1"), dict(ROT("k1", "k1", "cur", "k2", "e2", "n2"), win="exp2m"), dict(ROT("k1", "k1", "cur", "k2", "e2", "n2"), win="fut2m"),
                                           ROT("k1", "k1", "cur", "k2", "e2", "n2"), dict(ROT("k2", "k2", "cur", "k3", "e1", "n1"), win="fut2m")])
+# two server instances on one directory: one registers the node, the rotation goes through the other, the replay through the first
+def H(op, h): return dict(op, h=h)
+beh("f10_two_instances", ["C10", "C01"], [H(A("k3", "e1", "n1", "s1"), 1), H(F("k3", "e1", "n1"), 1), H(ROT("k3", "k3", "cur", "k1", "e2", "n2"), 0), H(ROT("k3", "k3", "cur", "k1", "e2", "n2"), 1),
+                                           H(ROT("k3", "k3", "cur", "k1", "e2", "n2"), 0), H(ROT("k1", "k1", "cur", "k2", "e1", "n1"), 1), H(ROT("k1", "k1", "cur", "k2", "e1", "n1"), 0), H(F("k2", "e1", "n1"), 1),
+                                           H(R("k2"), 0), H(F("k2", "e1", "n1"), 1), H(F("k2", "e1", "n1"), 0)], be="file2")
 def FR(t, ka, kb, e="e1", be="inmem"): return dict(op="FetchRace", t=t, ka=ka, kb=kb, e=e, be=be)
 # overlapping fetches presenting the same token: known finding KF-C06-1 on the in-memory back end; the file back end refuses the loser
 beh("kf_c06_race", ["C06", "C01"], [T("t1", "s1"), FR("t1", "k1", "k2"), F("k3", "e1", "t1"), T("t2"), FR("t2", "k3", "k1"), FR("t2", "k3", "k2")])
